@@ -47,3 +47,26 @@ Theorem c12_loops_until_first_gap : forall e, iter_env e -> forall progs, wf_pro
   check_prop 12 e (c_trace (exec e (init progs) sched)) (c_labels (exec e (init progs) sched)) = true.
 Proof. exact iter_C12_until_gap. Qed.
 Print Assumptions c12_loops_until_first_gap.
+
+(** ** after the repair of the waiting loop (a thread that finds its ticket at the yielded counter looks at
+    the completed flag once more before it uses the wrapped iterator): nothing is delivered after the first
+    None of the wrapped iterator, premature or not ([C07.c07_no_call_after_none]) *)
+From OCI.proofs Require Import AfterNone.
+
+(** every wrapped iterator, fused or not, on every run: the shape clause, no element handed to two closure
+    invocations, index fidelity of the enumerated form, permanence of the end *)
+Theorem c12_loops_but_no_loss_any_iterator : forall e, iter_env e -> forall progs, wf_progs progs -> forall sched,
+  nowrap (c_labels (exec e (init progs) sched)) ->
+  chk_C12_shape (c_trace (exec e (init progs) sched)) && chk_C01_nodup e (c_trace (exec e (init progs) sched))
+  && chk_C02 e (c_trace (exec e (init progs) sched)) && chk_C05 e (c_trace (exec e (init progs) sched)) = true.
+Proof. exact iter_C12_any. Qed.
+Print Assumptions c12_loops_but_no_loss_any_iterator.
+
+(** a wrapped iterator whose first premature None is the answer to call number [g]: the whole of C12 on
+    EVERY run, "no element is lost" being judged against what the wrapped iterator yields before that call
+    ([cut e g]: [e] with [e_len := min (e_len e) g], fused) *)
+Theorem c12_loops_any_iterator : forall e, iter_env e -> forall g, first_gap e g -> forall progs, wf_progs progs -> forall sched,
+  nowrap (c_labels (exec e (init progs) sched)) ->
+  check_prop 12 (cut e g) (c_trace (exec e (init progs) sched)) (c_labels (exec e (init progs) sched)) = true.
+Proof. exact iter_C12_after_gap. Qed.
+Print Assumptions c12_loops_any_iterator.
